@@ -29,6 +29,7 @@ kinds = {
     "clustersim": "several real nodes scheduled by the harness (message delivery, loss, duplication, crashes); every node step validated against the model, global predicates evaluated on the real states",
     "codecdiff": "differential encode/decode of every wire/disk format against the Lean codec model",
     "logdiff": "differential operation programs + crash images on the real segmented log against the Lean SegLog/SegDisk model",
+    "repldiff": "differential step validation of replication.go's step functions (writeAppendEntriesReq, onAppendEntriesResp, sendInstallSnapReq, onLeaderUpdate) on a real replication object over an in-memory connection against the Lean model Raft.Repl, with request-content monitors",
     "conndiff": "differential identity-handshake / lock scenarios over net.Pipe against the Lean connection automaton",
 }
 m = {
